@@ -127,13 +127,22 @@ fn src_greet(w: &W, j: usize) {
                         let op_prop = w.lock().unwrap().op_prop;
                         if let (Some(p), " [output live]") = (op_prop, out) { violate(&w, p, format!("Pull sent to {} after it ended by itself{}", name, out)); }
                     }
-                    SrcSt::Terminated => violate(&w, "C04", format!("Pull sent to {} after it was terminated{}", name, out)),
+                    SrcSt::Terminated => {
+                        violate(&w, "C04", format!("Pull sent to {} after it was terminated{}", name, out));
+                        // while the output is live this is also a routing error of the operator itself
+                        let op_prop = w.lock().unwrap().op_prop;
+                        if let (Some(p), " [output live]") = (op_prop, out) { violate(&w, p, format!("Pull sent to {} after it was terminated{}", name, out)); }
+                    }
                     _ => violate(&w, "C04", format!("Pull sent to {} before it greeted", name)),
                 },
                 Message::Terminate | Message::Error(_) => match st {
                     SrcSt::Live => { w.lock().unwrap().srcs[j].st = SrcSt::Terminated; }
                     SrcSt::Ended | SrcSt::Errored => violate(&w, "C04", format!("{} terminated after it ended by itself", name)),
-                    SrcSt::Terminated => violate(&w, "C04", format!("{} terminated twice", name)),
+                    SrcSt::Terminated => {
+                        violate(&w, "C04", format!("{} terminated twice", name));
+                        // flatten: "the previous one is disposed exactly once"
+                        if w.lock().unwrap().op_prop == Some("C11") { violate(&w, "C11", format!("{} terminated twice", name)); }
+                    }
                     _ => violate(&w, "C04", format!("{} terminated before it greeted", name)),
                 },
                 _ => violate(&w, "C04", format!("{} received {} on its talkback", name, kind(&m))),
@@ -203,7 +212,16 @@ fn sink_action(w: &W, k: usize, allow_nothing: bool) -> bool {
         _ => { w.lock().unwrap().sinks[k].st = SinkSt::Disposed; log(w, format!("{} -> Error", name)); tb(Message::Error(Arc::new(PuppetErr(format!("err-{}", name))))); true }
     }
 }
-fn sink_react(w: &W, k: usize) { while sink_action(w, k, true) {} }
+fn sink_react(w: &W, k: usize) {
+    while sink_action(w, k, true) {}
+    // scenario suffix X with several sinks (share): the consumers may be coupled behind the scenes, so ANOTHER
+    // sink may act (pull / leave) while this one is being delivered to
+    let (cross, n) = { let g = w.lock().unwrap(); (g.cross, g.sinks.len()) };
+    if cross && n > 1 {
+        let c = choose(w, n + 1);
+        if c >= 1 && c - 1 != k { sink_action(w, c - 1, true); }
+    }
+}
 fn puppet_sink(w: &W, k: usize) -> Sink {
     let w = w.clone();
     Arc::new((move |m: Message<u32, never::Never>| {
@@ -372,10 +390,10 @@ struct Outcome { violations: Vec<(String, String)>, log: Vec<String>, exhausted:
 fn run(op: &str, tape: &[u8]) -> Outcome {
     let w: W = Arc::new(Mutex::new(World { tape: tape.to_vec(), late: sfx(op).contains('L'), cross: sfx(op).contains('X'), pull_mode: sfx(op).contains('P'), op_prop: if op.starts_with("merge") { Some("C08") } else if op.starts_with("combine") { Some("C10") } else if op.starts_with("concat") { Some("C09") } else if op.starts_with("flatten") { Some("C11") } else { None }, ..Default::default() }));
     let r = catch_unwind(AssertUnwindSafe(|| {
-        if op == "share2" || op == "share3" {
+        if op == "share2" || op == "share3" || op == "share3X" {
             let j = new_source(&w, "a");
             let shared = Arc::new(callbag::share(puppet_source(&w, j)));
-            let max_sinks = if op == "share3" { 3 } else { 2 };
+            let max_sinks = if op == "share2" { 2 } else { 3 };
             let names = ["sinkA", "sinkB", "sinkC"];
             let attach = |w: &W| {
                 let k = w.lock().unwrap().sinks.len();
